@@ -23,10 +23,11 @@ static void ll_image(unsigned short *img, int P, int nc, int w, int h, int kind,
     img[((size_t)y * w + x) * nc + ci] = (unsigned short)ll_sample(P, kind, seed, ((unsigned long long)ci * h + y) * w + x, x);
 }
 
+static int ll_layout = 0;   /* scan layout of ll_compress: 0 default (one interleaved scan), 1 one scan per component, 2 {0},{1..}, 3 {0,1},{2..} */
 static int ll_compress(int P, int Pt, int psv, int R, int nc, int w, int h, int ycc, const unsigned short *img,
                        unsigned char **out, unsigned long *outsize, int *errcode)
 {
-  struct jpeg_compress_struct c; my_err_t e; int y;
+  struct jpeg_compress_struct c; my_err_t e; int y; static jpeg_scan_info sc[4];
   c.err = my_err_init(&e);
   jpeg_create_compress(&c);
   if (setjmp(e.jb)) { *errcode = e.code; jpeg_destroy_compress(&c); return 0; }
@@ -36,6 +37,16 @@ static int ll_compress(int P, int Pt, int psv, int R, int nc, int w, int h, int 
   c.data_precision = P;
   jpeg_set_defaults(&c);
   jpeg_enable_lossless(&c, psv, Pt);
+  if (ll_layout && nc > 1) {
+    int ns = 0, ci = 0, k;
+    while (ci < nc) {
+      int take = ll_layout == 1 ? 1 : ll_layout == 2 ? (ci == 0 ? 1 : nc - 1) : (ci == 0 ? (nc > 2 ? 2 : 1) : nc - ci);
+      sc[ns].comps_in_scan = take;
+      for (k = 0; k < take; k++) sc[ns].component_index[k] = ci + k;
+      sc[ns].Ss = psv; sc[ns].Se = 0; sc[ns].Ah = 0; sc[ns].Al = Pt; ns++; ci += take;
+    }
+    c.scan_info = sc; c.num_scans = ns;
+  }
   if (R) c.restart_in_rows = R;
   jpeg_start_compress(&c, TRUE);
   for (y = 0; y < h; y++) {
@@ -129,8 +140,10 @@ static int op_llenc(toks_t *t)
   unsigned char *out = NULL; unsigned long outsize = 0;
   char why[200] = "";
   ll_image(img, P, nc, w, h, kind, seed);
-  if (!ll_compress(P, Pt, psv, R, nc, w, h, ycc, img, &out, &outsize, &err)) { printf("R err %d\n", err); goto done; }
-  printf("R "); ll_dissect(out, outsize); printf("\n");
+  ll_layout = (!strcmp(t->tok[0], "llscan") && t->n > 11) ? (int)tl(t, 11) : 0;
+  if (!ll_compress(P, Pt, psv, R, nc, w, h, ycc, img, &out, &outsize, &err)) { ll_layout = 0; printf("R err %d\n", err); goto done; }
+  if (ll_layout) { printf("R skip layout %d size %lu\n", ll_layout, outsize); ll_layout = 0; }
+  else { printf("R "); ll_dissect(out, outsize); printf("\n"); }
   /* oracle: decode and compare with (s >> Pt) << Pt */
   if (!ll_decompress(out, outsize, P, nc, w, h, dec, &warns, &err)) { bad = 1; snprintf(why, sizeof(why), "own decompressor failed (error %d)", err); }
   else if (warns) { bad = 1; snprintf(why, sizeof(why), "own decompressor warned (%d warnings, first code %d)", warns, err); }
@@ -211,6 +224,7 @@ static int dispatch_c02(toks_t *t)
 {
   const char *op = t->tok[0];
   if (!strcmp(op, "llenc")) return op_llenc(t);
+  if (!strcmp(op, "llscan") && t->n > 11) return op_llenc(t);
   if (!strcmp(op, "lltj")) return op_lltj(t);
   return 0;
 }
